@@ -115,7 +115,10 @@ def merge(results):
         m["violations"].extend(r.get("violations", []))
         m["inconclusive"].extend(r.get("inconclusive", []))
         for k, v in r.get("counters", {}).items():
-            m["counters"][k] = m["counters"].get(k, 0) + v
+            if k.startswith("max_"):
+                m["counters"][k] = max(m["counters"].get(k, 0), v)
+            else:
+                m["counters"][k] = m["counters"].get(k, 0) + v
         for k, v in r.get("sets", {}).items():
             m["sets"].setdefault(k, set()).update(v)
         if len(m["samples"]) < 6:
